@@ -880,7 +880,21 @@ def run(ck):
         rc, out, err = vlib.sh2([binp, "-sets"], timeout=120)
         if rc == 0:
             sets = json.loads(out)
-        rc, out, err = vlib.sh2([binp, "-seed", str(ck.seed), "-tier", ck.tier], timeout=3000)
+        # route / path depths on both sides of every integer the routing sources name (none today)
+        import re
+        depths = []
+        try:
+            m = re.search(r"gen_aries_int_literals : list N := \[([^\]]*)\]",
+                          open(os.path.join(vlib.COQ, "theories", "Gen", "AriesSkel.v")).read())
+            for x in (m.group(1).split(";") if m else []):
+                if x.strip():
+                    l = int(x.replace("%N", ""))
+                    if l <= 200:
+                        depths += [l - 1, l, l + 1, 2 * l + 1]
+        except OSError:
+            pass
+        ck.coverage["deep_extra_depths"] = sorted(set(depths))
+        rc, out, err = vlib.sh2([binp, "-seed", str(ck.seed), "-tier", ck.tier, "-depths", ",".join(map(str, sorted(set(depths))))], timeout=3000)
         if rc != 0:
             ck.broken.append({"what": "harness run failed", "detail": err[-1500:]})
         for line in out.splitlines():
